@@ -29,7 +29,7 @@ EXPLANATION = (
 )
 NOT_DECIDED = ["accessors never raise (in general)", "document properties reported unchanged (value identity through XML/OLE readers)", "behaviour on damaged-but-accepted files beyond the nullness facts", "which of several stored values feeds a metadata field when a file carries more than one candidate (e.g. <meta name=description> and og:description): value-level choice"]
 TRUSTED = ["ElementTree .text / one-argument .get / .find may return None", "str methods return str", "nullness and interval engines"]
-FLOORS = {"C04-IFACE": 40, "C04-STR": 100, "C04-CHR": 5, "C04-BYTES": 20, "C04-DIM": 6, "C04-NUMPOS": 12, "C04-META": 21, "C04-TRUTH": 100, "C04-SAME": 8}
+FLOORS = {"C04-IFACE": 40, "C04-STR": 100, "C04-CHR": 5, "C04-BYTES": 20, "C04-DIM": 6, "C04-NUMPOS": 12, "C04-META": 21, "C04-TRUTH": 100, "C04-SAME": 8, "C04-PROP": 4}
 
 PROTO_METHODS = {
     "ExtractionInterface": ["iterate_units", "iterate_images", "iterate_tables", "get_full_text", "get_metadata", "to_json"],
@@ -410,6 +410,16 @@ def _codec_domain(ctx, m, fi, e, depth=0):
     # codecs.lookup(E).name is the canonical name of E
     if isinstance(e, ast.Attribute) and e.attr == "name" and isinstance(e.value, ast.Call) and (dotted(e.value.func) or "") == "codecs.lookup" and e.value.args:
         return _codec_domain(ctx, m, fi, e.value.args[0], depth + 1)
+    # helper(...) of the same module: its return values
+    if isinstance(e, ast.Call) and isinstance(e.func, ast.Name) and e.func.id in m.functions and e.func.id != fi.name:
+        g = m.functions[e.func.id]
+        out = set()
+        for r in [x for x in walk_own(g.node) if isinstance(x, ast.Return)]:
+            d = _codec_domain(ctx, m, g, r.value, depth + 1)
+            if d is None:
+                return None
+            out |= d
+        return out or None
     # self.X where X is a property of the class: its return values
     if isinstance(e, ast.Attribute) and isinstance(e.value, ast.Name) and e.value.id == "self" and "." in fi.qual:
         cls = m.classes.get(fi.qual.split(".")[0])
@@ -794,4 +804,100 @@ def rule_truth(ctx: Ctx) -> RuleReport:
     return rep
 
 
-RULES = [rule_iface, rule_str, rule_chr, rule_bytes, rule_dim, rule_numpos, rule_meta, rule_truth, rule_same]
+# ----------------------------------------------------------------------------------------------- PROP
+OLE_READERS = [X + "ms_legacy/doc_extractor.py", X + "ms_legacy/ppt_extractor.py", X + "ms_legacy/xls_extractor.py"]
+
+
+def rule_prop(ctx: Ctx) -> RuleReport:
+    """[MS-OLEPS]: VT_LPSTR property values are bytes in the code page that property 1 of the set declares; olefile returns them undecoded."""
+    rep = RuleReport("C04-PROP", "string properties of the OLE summary streams are decoded with the code page of their property set (never a fixed codec, never strictly): "
+                     "a Windows-1252 author is reported unchanged and cannot fail the extraction")
+    n = 0
+    for rel in OLE_READERS:
+        m = ctx.p.module(rel)
+        for fi in m.functions.values():
+            if fi.parent is not None:
+                continue
+            metas = {a.targets[0].id for a in walk_own(fi.node) if isinstance(a, ast.Assign) and len(a.targets) == 1 and isinstance(a.targets[0], ast.Name) and isinstance(a.value, ast.Call)
+                     and isinstance(a.value.func, ast.Attribute) and a.value.func.attr == "get_metadata" and not (isinstance(a.value.func.value, ast.Name) and a.value.func.value.id == "self" and False)}
+            metas = {v for v in metas if any(isinstance(x, ast.Attribute) and isinstance(x.value, ast.Name) and x.value.id == v and x.attr in ("title", "author", "subject") for x in ast.walk(fi.node))
+                     or any(isinstance(x, ast.Call) and isinstance(x.func, ast.Name) and x.func.id == "getattr" and x.args and isinstance(x.args[0], ast.Name) and x.args[0].id == v for x in ast.walk(fi.node))}
+            if not metas:
+                continue
+            n += 1
+            rep.unit(fi.key)
+            # every decode inside the function (nested helpers and lambdas included)
+            decs = [c for c in ast.walk(fi.node) if isinstance(c, ast.Call) and isinstance(c.func, ast.Attribute) and c.func.attr == "decode"]
+            for c in decs:
+                codec = ctx.folder.fold(m, c.args[0]) if c.args else "utf-8"
+                strict = not any(k.arg == "errors" for k in c.keywords) and len(c.args) < 2
+                rep.fail(Finding("C04-PROP", rel, fi.qual, f"property bytes decoded as {codec if isinstance(codec, str) else 'a computed codec'}" + (" (strict)" if strict else ""),
+                                 f"`{short(c, 50)}` decodes a summary-stream string with a fixed codec; the bytes are in the code page the property set declares (1252 for Western Office files): "
+                                 f"author 'T\\xf6by' becomes 'T\\ufffdby'" + (", and the strict decode raises UnicodeDecodeError, which loses the whole document" if strict else ""), line=c.lineno))
+            helper = [c for c in ast.walk(fi.node) if isinstance(c, ast.Call) and isinstance(c.func, ast.Name) and c.func.id == "decode_ole_string"]
+            for c in helper:
+                cp = c.args[1] if len(c.args) > 1 else next((k.value for k in c.keywords if k.arg == "codepage"), None)
+                # the code page argument is read from the metadata object (directly or through a local / conditional of locals)
+                names = {x.id for x in ast.walk(cp) if isinstance(x, ast.Name)} if cp is not None else set()
+                srcs = [a.value for a in ast.walk(fi.node) if isinstance(a, ast.Assign) and any(isinstance(t, ast.Name) and t.id in names for t in a.targets)]
+                from_meta = cp is not None and any(isinstance(x, ast.Constant) and isinstance(x.value, str) and x.value.startswith("codepage") for s_ in srcs + [cp] for x in ast.walk(s_)) or \
+                    any(isinstance(x, ast.Attribute) and x.attr.startswith("codepage") for s_ in srcs + ([cp] if cp is not None else []) for x in ast.walk(s_))
+                if from_meta:
+                    rep.ok({"reader": fi.qual, "decode": short(c, 60), "codepage": "of the property set"})
+                else:
+                    rep.fail(Finding("C04-PROP", rel, fi.qual, "code page not taken from the property set: " + anorm(c, fi.node), f"`{short(c, 60)}` is not given the code page stored in the metadata object (meta.codepage / meta.codepage_doc)", line=c.lineno))
+            if not decs and not helper:
+                rep.fail(Finding("C04-PROP", rel, fi.qual, "property strings not decoded", "the string properties returned by olefile (bytes) are used without decoding", line=fi.node.lineno))
+    if n < 3:
+        raise AnalysisError(f"C04-PROP: only {n} OLE metadata readers found (doc, ppt, xls confirmed)")
+    # repeatable properties: ODF stores one meta:keyword per keyword (ODF 1.2 part 1, 4.3.2.7), Dublin Core elements of an OPF are repeatable
+    # (one dc:creator per author); find() reports the first only
+    REPEATABLE = [(X + "open_office/_shared.py", "extract_odf_metadata", {"meta:keyword"}), (X + "epub_extractor.py", None, {"creator", "subject", "contributor"})]
+    for rel, fname, names in REPEATABLE:
+        mm = ctx.p.module(rel)
+        fns = [f for f in mm.functions.values() if (fname is None or f.name == fname) and f.parent is None]
+        seen_names: set[str] = set()
+        for f in fns:
+            # local helpers that look at the first match only
+            first_only = {g.name for g in mm.functions.values() if g.parent is f and any(isinstance(c, ast.Call) and isinstance(c.func, ast.Attribute) and c.func.attr == "find" for c in ast.walk(g.node))
+                          and not any(isinstance(c, ast.Call) and isinstance(c.func, ast.Attribute) and c.func.attr in ("findall", "iter", "iterfind") for c in ast.walk(g.node))}
+            for c in ast.walk(f.node):
+                if not isinstance(c, ast.Call):
+                    continue
+                lit = [a.value for a in c.args if isinstance(a, ast.Constant) and isinstance(a.value, str)]
+                hit = [x for x in lit if x in names or x.split(":")[-1] in {y.split(":")[-1] for y in names} and (":" in x) == any(":" in y for y in names)]
+                if not hit:
+                    continue
+                is_find = isinstance(c.func, ast.Attribute) and c.func.attr in ("find", "findtext")
+                is_first_helper = isinstance(c.func, ast.Name) and c.func.id in first_only
+                is_all = (isinstance(c.func, ast.Attribute) and c.func.attr in ("findall", "iter", "iterfind")) or (isinstance(c.func, ast.Name) and not is_first_helper and c.func.id in {g.name for g in mm.functions.values() if g.parent is f})
+                for x in hit:
+                    if is_find or is_first_helper:
+                        rep.fail(Finding("C04-PROP", rel, f.qual, f"first {x} only", f"`{short(c, 50)}` reports the first `{x}` element only; the property is repeatable (one element per keyword / author / subject), the others are lost", line=c.lineno))
+                        seen_names.add(x)
+                    elif is_all:
+                        rep.ok({"repeatable": x, "collected_with": short(c, 50)})
+                        seen_names.add(x)
+        want = {y.split(":")[-1] for y in names}
+        if not {y.split(":")[-1] for y in seen_names} >= want:
+            raise AnalysisError(f"C04-PROP: lookups of {sorted(want - {y.split(':')[-1] for y in seen_names})} not found in {rel}")
+    # the shared decoder: codec derived from the code page, never strict
+    um = ctx.p.by_rel.get(X + "util/ole_metadata.py")
+    dec = um.functions.get("decode_ole_string") if um is not None else None
+    if dec is None:
+        # no shared decoder: the readers decode by themselves and were judged above
+        if not rep.findings:
+            raise AnalysisError("C04-PROP: decode_ole_string vanished and no reader decodes property strings itself")
+        return rep
+    rep.unit(dec.key)
+    for c in [x for x in ast.walk(dec.node) if isinstance(x, ast.Call) and isinstance(x.func, ast.Attribute) and x.func.attr == "decode"]:
+        dom = _codec_domain(ctx, um, dec, c.args[0]) if c.args else None
+        lossy = any(k.arg == "errors" for k in c.keywords) or len(c.args) > 1
+        if dom is not None and "cp*" in dom and lossy:
+            rep.ok({"decode_ole_string": short(c, 60), "codec_in": sorted(dom), "strict": False})
+        else:
+            rep.fail(Finding("C04-PROP", um.rel, dec.qual, "decoder: " + anorm(c, dec.node), f"`{short(c, 60)}` does not decode with the declared code page (codec in {sorted(dom) if dom else '?'}) or decodes strictly (a byte outside the code page would fail the document)", line=c.lineno))
+    return rep
+
+
+RULES = [rule_iface, rule_str, rule_chr, rule_bytes, rule_dim, rule_numpos, rule_meta, rule_truth, rule_same, rule_prop]
